@@ -50,6 +50,34 @@ func (w *Walker) charsOf(t *Term) ([]*Term, bool) {
 		return t.Args, true
 	case "sref":
 		return srefElems(t), true
+	case "slicev":
+		return t.Args, true
+	case "slice":
+		// s[lo:hi] of a text whose characters are known
+		if len(t.Args) >= 3 && t.Args[0] != nil && isStringType(t.Args[0].Typ) {
+			cs, ok := w.charsOf(t.Args[0])
+			if !ok {
+				return nil, false
+			}
+			lo, hi := int64(0), int64(len(cs))
+			if t.Args[1] != nil {
+				n, ok := t.Args[1].Int64()
+				if !ok {
+					return nil, false
+				}
+				lo = n
+			}
+			if t.Args[2] != nil {
+				n, ok := t.Args[2].Int64()
+				if !ok {
+					return nil, false
+				}
+				hi = n
+			}
+			if 0 <= lo && lo <= hi && hi <= int64(len(cs)) {
+				return cs[lo:hi], true
+			}
+		}
 	case "conv":
 		if len(t.Args) == 1 {
 			return w.charsOf(t.Args[0])
